@@ -667,6 +667,25 @@ func c07HostLoop(form int, tw bool) core.Result {
 }
 
 func c07Run(c core.Case) core.Result {
+	if c.Fam == "corner" {
+		cs := []struct{ src, want string }{
+			// the else branch of a loop over nothing is not the loop body: names that collide with the loop's targets are the outer ones there
+			{"{% set item = 'outer' %}{% for item in [] %}B{% else %}none:{{ item }}{% endfor %}|{{ item }}", "none:outer|outer"},
+			{"{% set k = 'K' %}{% set v = 'V' %}{% for k, v in {} %}B{% else %}[{{ k }}{{ v }}{{ probe('loop') }}]{% endfor %}|{{ k }}{{ v }}", "[KVU]|KV"},
+			{"{% set n = 1 %}{% for x in [] %}{% else %}{% set n = n + 1 %}{% endfor %}{{ n }}|{% for x in [] %}{% else %}{% set n = n + 1 %}{% endfor %}{{ n }}", "2|3"},
+			{"{% for x in nothing %}B{% else %}{{ x }}{{ cx }}{% endfor %}|{{ x }}", "CXcx|CX"},
+			// names that only look like keywords are ordinary variables: set, macro parameter, loop target, context entry
+			{"{% set None = 'n' %}{% set True = 't' %}[{{ None }}][{{ True }}][{{ Null }}]", "[n][t][ctx]"},
+			{"{% macro m(False, Null) %}<{{ False }}{{ Null }}>{% endmacro %}{{ _self.m('a', 'b') }}[{{ Null }}]", "<ab>[ctx]"},
+			{"{% for False in [1, 2] %}{{ False }}{% endfor %}{% for None, v in ['x'] %}{{ None }}{{ v }}{% endfor %}[{{ probe('False') }}{{ probe('None') }}]", "120x[UU]"},
+			{"{% if true %}{% set Null = 'changed' %}{% endif %}{{ Null }}", "changed"},
+		}[c.N[0]]
+		out, err, pan := tryExec(c07Env(), cs.src, map[string]stick.Value{"x": "CX", "cx": "cx", "Null": "ctx"})
+		if pan != "" || err != nil || out != cs.want {
+			return core.Violation("scoping", fmt.Sprintf("%q renders %q (%v %s), want %q", cs.src, out, err, pan, cs.want))
+		}
+		return core.Okay(true, out)
+	}
 	if c.Fam == "macrotwice" {
 		// a macro called repeatedly with equal arguments: its parameters are bound and its body is run for each call
 		// (a counting callback inside the body shows it), and the parameter is undefined again after each
@@ -844,6 +863,9 @@ func c07Levels(tier string) []core.Level {
 			}
 			for _, n := range []int{1, 2, 3, 5, 100, 101, 150} {
 				emit(core.Case{Fam: "macrotwice", N: []int{n}})
+			}
+			for k := 0; k < 8; k++ {
+				emit(core.Case{Fam: "corner", N: []int{k}})
 			}
 			// a context entry of the host named "loop": 5 templates x core / twig x Execute / ExecuteSafe
 			for form := 0; form < 5; form++ {
